@@ -172,11 +172,15 @@ func Cause(ctx context.Context) error {
 // simulated process from outside. One signal a Go program sends to itself:
 // SIGURG, with which the runtime pre-empts a goroutine that has been running
 // for about 10 ms. A context subscribed to *all* signals (empty list) is
-// therefore cancelled after 10..20 ms of simulated computing (seeded).
+// therefore cancelled after 0.2..25.6 ms of simulated computing in half of the
+// scenarios (seeded; the logical clock does not count the start-up work done
+// inside libraries, so the real 10 ms may be reached after few ticks).
 func NotifyContext(parent context.Context, sigs ...os.Signal) (context.Context, context.CancelFunc) {
 	c := newCtx(parent)
-	if len(sigs) == 0 && c.err == nil {
-		d := 10*time.Millisecond + time.Duration(schedRNG.intn(10_000))*time.Microsecond
+	if len(sigs) == 0 && c.err == nil && schedRNG.intn(2) == 0 {
+		// (whether the runtime sends the signal at all depends on the collector
+		// and on what else runs: in half of the scenarios it does not)
+		d := 200 * time.Microsecond << uint(schedRNG.intn(8)) // 0.2 .. 25.6 ms
 		c.timer = addTimer(d, func() {
 			journal.Faults = append(journal.Faults, "signal:SIGURG:runtime-preemption")
 			c.cancel(context.Canceled)
@@ -187,8 +191,8 @@ func NotifyContext(parent context.Context, sigs ...os.Signal) (context.Context, 
 
 // SignalNotify replaces signal.Notify (same reasoning as NotifyContext).
 func SignalNotify(ch *Chan[os.Signal], sigs ...os.Signal) {
-	if len(sigs) == 0 && ch != nil {
-		d := 10*time.Millisecond + time.Duration(schedRNG.intn(10_000))*time.Microsecond
+	if len(sigs) == 0 && ch != nil && schedRNG.intn(2) == 0 {
+		d := 200 * time.Microsecond << uint(schedRNG.intn(8)) // 0.2 .. 25.6 ms
 		addTimer(d, func() {
 			journal.Faults = append(journal.Faults, "signal:SIGURG:runtime-preemption")
 			if ch.canSend() && !ch.closed {
